@@ -451,6 +451,9 @@ pub fn to_duration(num: &Number) -> Result<Duration, String> {
         return Err("Expected seconds".to_string());
     }
     let max = Numeric::from(i64::max_value() / 1000);
+    if !num.value.to_f64().is_finite() {
+        return Err("Expected a finite number of seconds".to_string());
+    }
     if num.value.abs() > max {
         return Err(format!(
             "Implementation error: Number is out of range ({:?})",
